@@ -5,7 +5,7 @@
 (* the ids taken on an accepted path in the variable kf.                         *)
 EXTENDS Map, TLC
 
-KnownIds == {"C06-KF1", "C06-KF2", "C06-KF3", "C06-KF4", "C06-KF5"}
+KnownIds == {"C06-KF1", "C06-KF2", "C06-KF3", "C06-KF4", "C06-KF5", "C06-KF6"}
 
 Has3(e) == "via" \in DOMAIN e
 StubVariants == {"small_inline_4", "small_inline_16", "cache_optimized", "string_optimized"}
@@ -48,6 +48,14 @@ G5(e, subj) == /\ subj.fam = "zhm" /\ subj.variant \in {"default_clone", "with_c
                /\ e.op = "clone"
 KF5(e, subj) == G5(e, subj) /\ m' = Empty
 
+(* C06-KF6 (patch C06-23): HashStrMap::insert_fast_str stores a key that is not valid UTF-8 under *)
+(* its lossy conversion, get_by_fast_str answers None for such a key although it was inserted.     *)
+(* Keys k with k % 3 = 2 of this subject are the byte strings that are not valid UTF-8.            *)
+G6(e, subj) == /\ subj.fam = "hashstr" /\ subj.variant = "faststr_bytes"
+               /\ e.op = "get" /\ Has3(e) /\ e.via = "get_by_fast_str"
+               /\ e.k % 3 = 2 /\ e.k \in DOMAIN m /\ e.r = None
+KF6(e, subj) == G6(e, subj) /\ UNCHANGED m
+
 (* guard (state predicate) and action of each deviation.  In KF mode a deviation whose   *)
 (* guard holds REPLACES the contract action for that event.                               *)
 DevApplies(id, e, subj, g) ==
@@ -56,10 +64,12 @@ DevApplies(id, e, subj, g) ==
     \/ id = "C06-KF3" /\ G3(e, subj)
     \/ id = "C06-KF4" /\ G4(e, subj)
     \/ id = "C06-KF5" /\ G5(e, subj)
+    \/ id = "C06-KF6" /\ G6(e, subj)
 KnownDeviation(id, e, subj, g) ==
     \/ id = "C06-KF1" /\ KF1(e, subj)
     \/ id = "C06-KF2" /\ KF2(e, subj, g)
     \/ id = "C06-KF3" /\ KF3(e, subj)
     \/ id = "C06-KF4" /\ KF4(e, subj)
     \/ id = "C06-KF5" /\ KF5(e, subj)
+    \/ id = "C06-KF6" /\ KF6(e, subj)
 =============================================================================
